@@ -4,8 +4,9 @@ from ..tables import t67_transforms as T
 
 
 def run(ctx: Ctx) -> None:
-    T.run_inverse(ctx)
-    T.run_generic(ctx, inverse=True)
+    with ctx.parallel():  # every obligation builds its own environment
+        T.run_inverse(ctx)
+        T.run_generic(ctx, inverse=True)
     ctx.floor("T67.generic-inverse", 6)
     ctx.floor("T67.inverse", 200)
     ctx.floor("T67.inverse-velocity", 30)
